@@ -1,0 +1,17 @@
+//go:build verif
+
+package objecttree
+
+import "context"
+
+// VerifBuildTestableHistoryTree is BuildHistoryTree with the dependencies of BuildTestableTree (non-verifying change
+// builder with the mock key storage, no-op validator): the history tree of a storage whose changes carry no
+// signatures, for a verification harness. No behaviour change.
+func VerifBuildTestableHistoryTree(params HistoryTreeParams) (HistoryTree, error) {
+	rootChange, err := params.Storage.Root(context.Background())
+	if err != nil {
+		return nil, err
+	}
+	deps := nonVerifiableTreeDeps(rootChange.RawTreeChangeWithId(), params.Storage, params.AclList)
+	return buildHistoryTree(deps, params)
+}
